@@ -32,6 +32,15 @@ class ResultShape(Exception):
         self.name, self.got, self.want = name, got, want
 
 
+class CalleeNotCalled(ResultShape):
+    """the code under contract returned without calling a callee whose contract the harness substitutes (so the
+    result cannot have come from it): failed obligation <name>/callee-called"""
+
+    def __init__(self, name, key):
+        Exception.__init__(self, "%s: callee record %r missing" % (name, key))
+        self.name, self.got, self.want = name, "no call of the callee (%s)" % key, "a call"
+
+
 class Mode:
     """what a harness sees: symbol factory, number field, obligation sink"""
 
@@ -634,9 +643,14 @@ def run_task(ref, shape, kind="sym", env=None, wanted=None, sample_seed=None):
                 env = {k: str(v) for k, v in M.env.items()}
             except Exception:
                 pass
-            rec["results"] = list(rec.get("results") or []) + [{
-                "name": e.name + "/result-shape", "status": "failed", "backend": "run", "secs": 0.0,
-                "detail": "the code under contract returned shape %s where its contract states %s" % (e.got, e.want), "cex": {"env": env}}]
+            if isinstance(e, CalleeNotCalled):
+                rec["results"] = list(rec.get("results") or []) + [{
+                    "name": e.name + "/callee-called", "status": "failed", "backend": "run", "secs": 0.0,
+                    "detail": "the code under contract returned without calling the callee its contract is stated over: %s" % e.got, "cex": {"env": env}}]
+            else:
+                rec["results"] = list(rec.get("results") or []) + [{
+                    "name": e.name + "/result-shape", "status": "failed", "backend": "run", "secs": 0.0,
+                    "detail": "the code under contract returned shape %s where its contract states %s" % (e.got, e.want), "cex": {"env": env}}]
         elif _raised_in_repo(e):
             # the function under contract raised on an input satisfying its precondition: that is a failed
             # obligation of the contract ("returns normally"), not a checker crash
